@@ -183,6 +183,10 @@ func cmdMutants(args []string) int {
 		caughtBy := []string{}
 		verdict := "MISSED"
 		for _, pid := range append([]string{meta.Property}, meta.Also...) {
+			if props[pid] == nil {
+				fmt.Printf("mutant %s: property %s has no check\n", e.Name(), pid)
+				continue
+			}
 			o := checkOpts{prop: pid, tier: tier, seed: 1, workers: 16, scale: scale, quiet: true}
 			res := runCheck(props[pid], o)
 			if res.exit == 1 {
